@@ -27,7 +27,8 @@ RULE = ("stream 1: three valid base documents per kind (rule, correlation, filte
         "sampled document as one-document collection, seeded document pairs; collections loaded with reference resolution (kind collection_refs): "
         "references present / missing / partly missing by name and by id, nested correlations, extended conditions, erroneous referenced rules, "
         "seeded mixes; distinct = distinct (kind, document); "
-        "non-trivial = a mutated (not the base) document")
+        "non-trivial = a mutated (not the base) document"
+        "; rule sets loaded from files (load_ruleset) where one file holds the documents of a collection case")
 ASSUMPTIONS = [
     "documents are YAML-representable Python values (no custom tags); loading goes through from_dict / SigmaCollection.from_dicts",
     "'the same error' = same exception class and same message text",
